@@ -647,7 +647,13 @@ fn run_eval(fields: &[&str], cases: &mut impl Write, out: &mut impl Write) {
 fn ctx_with_props(props: &[String]) -> Result<SymbolicContext, String> {
     let rg = RegulatoryGraph::new(props.to_vec());
     let bn = BooleanNetwork::new(rg);
-    SymbolicContext::new(&bn)
+    // as the model-checking entry points see it: two spare symbolic copies of every variable
+    // (their BDD variables are named <var>_extra_<i>; such names are NOT network variables)
+    let mut extra = HashMap::new();
+    for v in bn.variables() {
+        extra.insert(v, 2u16);
+    }
+    SymbolicContext::with_extra_state_variables(&bn, &extra)
 }
 
 fn run_front(fields: &[&str], cases: &mut impl Write, out: &mut impl Write, line: &str) {
